@@ -103,7 +103,8 @@ func (eng *Engine) verifyFunction(fn *ssa.Function, key string, c *Contract) (re
 	if c.AtcallOnly {
 		var kept []*Obligation
 		for _, o := range ex.obls {
-			if o.Kind == "atcall" {
+			// (and the invariants of its loops, which the call-site assertions inside a loop rest on)
+			if o.Kind == "atcall" || o.Kind == "inv-entry" || o.Kind == "inv-preserved" {
 				kept = append(kept, o)
 			}
 		}
